@@ -242,11 +242,27 @@ def stabilizer_to_graph(input_stabilizer, validate=True):
         )
 
     if validate:
+        # compare states, not generating sets: both sides are brought to canonical form first
         assert mixed_stabilizer_equivalency(
-            input_stabilizer, graph_to_stabilizer(graph_list)
+            _canonical_copy(input_stabilizer),
+            _canonical_copy(graph_to_stabilizer(graph_list)),
         ), "Input stabilizer is not a graph state."
 
     return graph_list
+
+
+def _canonical_copy(stabilizer):
+    """
+    Helper function to bring a stabilizer tableau, or every tableau of a mixture, to canonical form (on a copy)
+
+    :param stabilizer: the stabilizer representation
+    :type stabilizer: StabilizerTableau or list[(float, StabilizerTableau)]
+    :return: the same representation with every tableau in canonical form
+    :rtype: StabilizerTableau or list[(float, StabilizerTableau)]
+    """
+    if isinstance(stabilizer, list):
+        return [(p_i, canonical_form(t_i.copy())) for p_i, t_i in stabilizer]
+    return canonical_form(stabilizer.copy())
 
 
 def stabilizer_to_density(input_stabilizer):
